@@ -252,6 +252,11 @@ class NegativeConditionsRemover(engines.engine.Engine, CompilerMixin):
             # pushing a negation inwards turns a negated conjunction (or a negated
             # equality) into a disjunction
             new_kind.set_conditions_kind("DISJUNCTIVE_CONDITIONS")
+            # ... and a negated quantifier into the dual quantifier
+            if problem_kind.has_existential_conditions():
+                new_kind.set_conditions_kind("UNIVERSAL_CONDITIONS")
+            if problem_kind.has_universal_conditions():
+                new_kind.set_conditions_kind("EXISTENTIAL_CONDITIONS")
         return new_kind
 
     def _compile(
